@@ -77,6 +77,7 @@ func init() {
 			m := Meta{Case: c, Input: in, Key: string(q.JSON()), Trivial: len(d.ConsideredAlternatives) < 2}
 			dmpLine := dmpSX(d)
 			ds := Nums(draws(params.RandomSeed, heurDraws))
+			heurConsideredOrder(o, m, dm, d)
 			levels, msgL, capped := heurGoLevels(increasingSatisfactionLevels, params.Function, params.Params, d)
 			if capped {
 				o.count("levels-cap")
@@ -104,6 +105,9 @@ func init() {
 			if distinct {
 				m.Stage = "aspect-evaluate"
 				o.Corr(m, L(A("aspect-evaluate"), dmpLine, ds, lvLine), okSX(goRes))
+				// the same with the model generating the aspiration levels itself ("walks through the aspiration levels")
+				m.Stage = "aspect-evaluate-full"
+				o.Corr(m, L(A("aspect-evaluate-full"), dmpLine, ds), okSX(goRes))
 			} else {
 				m.Stage = "aspect-evaluate-some"
 				o.Corr(m, L(A("aspect-evaluate-some"), dmpLine, ds, lvLine, goRes), "ok ok")
